@@ -859,6 +859,38 @@ func c03Hist(c *h.Ctx) error {
 		}
 	}
 	c.Set("structures", len(names))
+	// the header is the caller's: a message whose Header.Command was assigned directly (a value other than the attached
+	// command's code -- a caller recycling one Message, a test varying header fields) still encodes the same way every time,
+	// carries the assigned byte, and keeps the field
+	isSkipped := map[string]bool{}
+	for _, n := range skipped {
+		isSkipped[n] = true
+	}
+	for _, name := range names {
+		if isSkipped[name] {
+			continue
+		}
+		m := c03Fresh(name, 1)
+		own := byte(m.Command.GetCommandCode())
+		assigned := own ^ 0x5A
+		m.Header.Command = codes.CommandCode(assigned)
+		var b1, b2, b3 []byte
+		var e1, e2, e3 error
+		if p := h.Guard(func() { b1, e1 = m.Marshal(); b2, e2 = m.Marshal(); b3, e3 = m.Marshal() }); p != "" || e1 != nil || e2 != nil || e3 != nil || len(b1) < 32 {
+			continue
+		}
+		c.Exec(3)
+		c.Case(name + ":header-command-assigned")
+		smp := map[string]interface{}{"structure": name, "assigned_header_command": assigned, "attached_command_code": own}
+		switch {
+		case !bytes.Equal(b1, b2) || !bytes.Equal(b2, b3):
+			c.Fail("commands."+name+".Marshal", "repeat:differs:header-command-assigned", fmt.Sprintf("Header.Command assigned %#02x (the attached command's code is %#02x): three encodings of the same message carry command bytes %#02x %#02x %#02x", assigned, own, b1[4], b2[4], b3[4]), smp)
+		case b1[4] != assigned:
+			c.Drift("message.Message.Marshal", "header-command-overridden", fmt.Sprintf("Header.Command assigned %#02x, encoded %#02x", assigned, b1[4]), smp)
+		case byte(m.Header.Command) != assigned:
+			c.Fail("message.Message.Marshal", "marshal-rewrites-header-field", fmt.Sprintf("Header.Command was %#02x before Marshal and is %#02x after it", assigned, byte(m.Header.Command)), smp)
+		}
+	}
 	c.Set("structures_default_not_encodable", skipped)
 	c.Set("marshal_results_judged", judged)
 	c.Sample(map[string]interface{}{"history": []string{"M", "S1", "M"}, "structures": len(names) - len(skipped)})
